@@ -131,6 +131,9 @@ type Prop struct {
 
 var Registry = map[string]*Prop{}
 
+// Children are auxiliary sub-process entry points (`vcheck child <name> args...`).
+var Children = map[string]func(args []string){}
+
 func Register(p *Prop) { Registry[p.ID] = p }
 
 // Guard runs f and converts a panic into (panicked=true, text).
@@ -217,6 +220,13 @@ func Main() {
 		worker(os.Args[2:])
 	case "replay":
 		os.Exit(replay(os.Args[2]))
+	case "child":
+		if f := Children[os.Args[2]]; f != nil {
+			f(os.Args[3:])
+			return
+		}
+		fmt.Fprintln(os.Stderr, "unknown child", os.Args[2])
+		os.Exit(2)
 	case "list":
 		ids := []string{}
 		for id := range Registry {
